@@ -121,6 +121,83 @@ func feOrder(fd *ast.FuncDecl, names ...string) []string {
 	return out
 }
 
+
+// feGenState: the generator type's fields, and for every method of it (with the receiver's type as
+// written) every use of a receiver field, rendered as the smallest enclosing expression or simple
+// statement: a field that is assigned, sliced, appended to or passed on would show up here.
+func feGenState(f *ast.File, typ string) (fields, uses []string) {
+	if f == nil {
+		return nil, nil
+	}
+	for _, d := range f.Decls {
+		gd, ok := d.(*ast.GenDecl)
+		if !ok {
+			continue
+		}
+		for _, sp := range gd.Specs {
+			ts, ok := sp.(*ast.TypeSpec)
+			if !ok || ts.Name.Name != typ {
+				continue
+			}
+			if st, ok := ts.Type.(*ast.StructType); ok {
+				for _, fl := range st.Fields.List {
+					for _, n := range fl.Names {
+						fields = append(fields, n.Name+" "+text(fl.Type))
+					}
+					if len(fl.Names) == 0 {
+						fields = append(fields, "embedded "+text(fl.Type))
+					}
+				}
+			}
+		}
+	}
+	for _, d := range f.Decls {
+		fd, ok := d.(*ast.FuncDecl)
+		if !ok || fd.Recv == nil || len(fd.Recv.List) != 1 || fd.Body == nil {
+			continue
+		}
+		rt := text(fd.Recv.List[0].Type)
+		if strings.TrimPrefix(rt, "*") != typ {
+			continue
+		}
+		recv := "_"
+		if len(fd.Recv.List[0].Names) == 1 {
+			recv = fd.Recv.List[0].Names[0].Name
+		}
+		uses = append(uses, "func ("+recv+" "+rt+") "+fd.Name.Name)
+		var stack []ast.Node
+		ast.Inspect(fd.Body, func(n ast.Node) bool {
+			if n == nil {
+				stack = stack[:len(stack)-1]
+				return true
+			}
+			if id, ok := n.(*ast.Ident); ok && id.Name == recv && len(stack) > 0 {
+				// t alone (passed on / copied) or t.field / t.method(...)
+				i := len(stack) - 1
+				if sel, ok := stack[i].(*ast.SelectorExpr); ok && sel.X == id {
+					if i > 0 {
+						if call, ok := stack[i-1].(*ast.CallExpr); ok && call.Fun == sel {
+							uses = append(uses, fd.Name.Name+": call "+text(sel))
+							stack = append(stack, n)
+							return true
+						}
+						i--
+					}
+				}
+				var encl ast.Node = stack[i]
+				switch encl.(type) {
+				case *ast.BlockStmt, *ast.ForStmt, *ast.IfStmt, *ast.RangeStmt, *ast.SwitchStmt, *ast.TypeSwitchStmt, *ast.CaseClause:
+					encl = stack[len(stack)-1]
+				}
+				uses = append(uses, fd.Name.Name+": "+text(encl))
+			}
+			stack = append(stack, n)
+			return true
+		})
+	}
+	return
+}
+
 func factsFrontend() {
 	// ---- C41
 	f := parse("pkg/queryfrontend/split_by_interval.go")
@@ -149,6 +226,16 @@ func factsFrontend() {
 	emitList("seriesKeyFormat", "pkg/queryfrontend/cache.go GenerateCacheKey: case *ThanosSeriesRequest", feStmts(feCaseBody(gk, "*ThanosSeriesRequest")))
 	emitList("shardInfoKeyBody", "pkg/queryfrontend/cache.go generateShardInfoKey", feBody(fn(ck, "", "generateShardInfoKey")))
 	emitList("cacheKeyResolutions", "pkg/queryfrontend/cache.go newThanosCacheKeyGenerator", feBody(fn(ck, "", "newThanosCacheKeyGenerator")))
+	gf, gu := feGenState(ck, "thanosCacheKeyGenerator")
+	emitList("cacheKeyGenFields", "pkg/queryfrontend/cache.go: fields of thanosCacheKeyGenerator", gf)
+	emitList("cacheKeyGenUses", "pkg/queryfrontend/cache.go: methods of thanosCacheKeyGenerator (receiver as written) and every use of the receiver in them", gu)
+	var pool []string
+	for _, l := range feBody(fn(ck, "thanosCacheKeyGenerator", "generateQueryRangeCacheKey")) {
+		if strings.Contains(l, "queryRangeCacheKeyBufferPool") || strings.Contains(l, "buf.String()") || strings.Contains(l, "buf.Reset()") || strings.HasPrefix(l, "return") {
+			pool = append(pool, l)
+		}
+	}
+	emitList("rangeKeyBufferLife", "pkg/queryfrontend/cache.go generateQueryRangeCacheKey: life of the pooled buffer (taken, reset, copied out by String, reset, given back, key returned)", pool)
 	emitList("shouldCacheBody", "pkg/queryfrontend/roundtrip.go shouldCache", feBody(fn(parse("pkg/queryfrontend/roundtrip.go"), "", "shouldCache")))
 	emitList("unsafeTenantBody", "internal/cortex/tenant/resolver.go containsUnsafePathSegments",
 		feBody(fn(parse("internal/cortex/tenant/resolver.go"), "", "containsUnsafePathSegments")))
